@@ -1292,9 +1292,19 @@ type BitTest struct {
 	// bit, the walk is left ("return" / "break"): every higher bit goes
 	// unreported whenever this one is set.
 	Cut string
+	// RowConds: conditions on the row alone (is the bit named?) that were decided
+	// while the body was interpreted. A test that reports nothing because such a
+	// condition rules the row out is dropped: the iteration does nothing for that bit.
+	RowConds int
 	// Opaque: statements of the body that hand the reported data to a module
 	// function / function value the analysis does not interpret (counted in Other).
 	Opaque []string
+}
+
+// vacuous: the test reports nothing, does nothing else, and a condition on the
+// row alone explains why (`if name, ok := T[bit]; ok { … }` for an unnamed bit).
+func (bt *BitTest) vacuous() bool {
+	return len(bt.Emits) == 0 && len(bt.Appended) == 0 && bt.Other == 0 && bt.Cut == "" && bt.RowConds > 0 && !bt.HasElse
 }
 
 // Emit is one value a test reports: an integer constant or a constant string.
@@ -1598,9 +1608,29 @@ func (ev *Evaluator) CollectBitTests(body ast.Node) *Decomp {
 	// The result says that the list was left by such a `continue`.
 	var scan func(bt *BitTest, list []ast.Stmt, iter bool) bool
 	scan = func(bt *BitTest, list []ast.Stmt, iter bool) bool {
-		for _, st := range list {
+		skipNext := false
+		for si, st := range list {
+			if skipNext {
+				skipNext = false
+				continue
+			}
 			if skip[st] {
 				continue
+			}
+			// `buf[n] = name; n++`: a store into a pre-sized buffer at a running count is an append
+			if as, ok := st.(*ast.AssignStmt); ok && as.Tok == token.ASSIGN && len(as.Lhs) == 1 && len(as.Rhs) == 1 && si+1 < len(list) {
+				if ie, ok := ast.Unparen(as.Lhs[0]).(*ast.IndexExpr); ok {
+					if nid, ok := ast.Unparen(ie.Index).(*ast.Ident); ok {
+						if inc, ok := list[si+1].(*ast.IncDecStmt); ok && inc.Tok == token.INC {
+							if iid, ok := ast.Unparen(inc.X).(*ast.Ident); ok && ev.Info.Uses[iid] != nil && ev.Info.Uses[iid] == ev.Info.Uses[nid] {
+								bt.Acc = append(bt.Acc, types.ExprString(ie.X))
+								emit(bt, as.Rhs[0])
+								skipNext = true
+								continue
+							}
+						}
+					}
+				}
 			}
 			as, ok := st.(*ast.AssignStmt)
 			if ok && len(as.Lhs) == 1 && len(as.Rhs) == 1 {
@@ -1648,6 +1678,7 @@ func (ev *Evaluator) CollectBitTests(body ast.Node) *Decomp {
 				// a condition on the row alone (is the bit named? is the name empty?): decided per row
 				if is.Init == nil || pureDefine(ev.Info, is.Init) {
 					if b, ok := ev.constCond(is.Cond); ok {
+						bt.RowConds++
 						if iter && isContinue(is.Body) {
 							okBranch[is.Body.List[0]] = true
 						}
@@ -1703,7 +1734,9 @@ func (ev *Evaluator) CollectBitTests(body ast.Node) *Decomp {
 		bt := &BitTest{If: is, Cond: s, HasElse: is.Else != nil, Row: row, Under: under}
 		bt.Test, bt.Err = AsMaskTest(s)
 		scan(bt, is.Body.List, false)
-		d.Tests = append(d.Tests, bt)
+		if !bt.vacuous() {
+			d.Tests = append(d.Tests, bt)
+		}
 		inside = append(inside, region{is.Body.Pos(), is.Body.End()})
 		return true
 	}
@@ -1783,7 +1816,9 @@ func (ev *Evaluator) CollectBitTests(body ast.Node) *Decomp {
 					bt.Test, bt.Err = AsMaskTest(bt.Cond)
 					rest := b.List[i+1:]
 					scan(bt, rest, true)
-					d.Tests = append(d.Tests, bt)
+					if !bt.vacuous() {
+						d.Tests = append(d.Tests, bt)
+					}
 					if len(rest) > 0 {
 						inside = append(inside, region{rest[0].Pos(), b.End()})
 						for _, r := range rest {
@@ -1863,6 +1898,13 @@ func (ev *Evaluator) CollectBitTests(body ast.Node) *Decomp {
 			case *ast.CallExpr:
 				if producers[x] {
 					break // interpreted by the loop that ranges over what it returns
+				}
+				// len(word.GetFlags()) / cap(…): only the size is used (pre-sizing a
+				// buffer); what the callee reports does not reach the result here
+				if len(stack) >= 2 {
+					if outer, ok := stack[len(stack)-2].(*ast.CallExpr); ok && (isBuiltin(ev.Info, outer, "len") || isBuiltin(ev.Info, outer, "cap")) {
+						break
+					}
 				}
 				if sub, fd := ev.enterHelper(x); sub != nil {
 					enc := enclosing()
